@@ -265,6 +265,11 @@ fn keybytes<B: Backend>(acc: &mut Acc) {
                         sources.push((format!("{} {what} key with {n} bytes inserted in the middle", S::NAME), v));
                     }
                     sources.push((format!("{} {what} key doubled", S::NAME), [&vb[..], &vb[..]].concat()));
+                    for n in [1usize, 16, 49] {
+                        // zero-extension on either side (a big-endian integer parser would not notice)
+                        sources.push((format!("{} {what} key with {n} zero bytes in front", S::NAME), [&vec![0u8; n][..], &vb[..]].concat()));
+                        sources.push((format!("{} {what} key with {n} zero bytes behind", S::NAME), [&vb[..], &vec![0u8; n][..]].concat()));
+                    }
                     let mut v = vb[..h].to_vec();
                     v.extend_from_slice(&vb[h + 1..]);
                     sources.push((format!("{} {what} key with the middle byte removed", S::NAME), v));
